@@ -89,6 +89,27 @@ def curve_arrays(curve):
     """vlib.synth arrays plus sensor noise on the measured height (``hnoise`` in units of the mean
     sample step of the height, added before quantisation; the tip position nanite computes inherits it)"""
     a = synth.arrays(curve)
+    tm = curve.get("time_mode") or "uniform"
+    if tm != "uniform":
+        # records are not always sampled equidistantly in time: other rate on the retract, or a dwell at the turn
+        n_app = int(curve["n_app"])
+        t_old = a["time"]
+        dt = np.full(t_old.size, 1e-3)
+        if tm == "fast_retract":
+            dt[n_app:] = 0.25e-3
+        elif tm == "slow_retract":
+            dt[n_app:] = 2e-3
+        elif tm == "dwell":
+            dt[n_app] = 0.5
+        t_new = np.concatenate([[0.0], np.cumsum(dt[1:])])
+        if curve.get("drift"):
+            # the temporal drift follows the real time axis
+            a["force"] = (a["force"] - curve["drift"] * a["frange"] * t_old / t_old[-1]
+                          + curve["drift"] * a["frange"] * t_new / t_new[-1])
+            h = a["tip"] - a["force"] / curve["k"]
+            q = curve.get("quant") or 0.0
+            a["height"] = np.round(h / q) * q if q else h
+        a["time"] = t_new
     hn = curve.get("hnoise") or 0.0
     if hn:
         n = a["tip"].size
@@ -170,6 +191,7 @@ def st_case(draw):
     curve = draw(synth.st_curve(st, noise=st.sampled_from([0.0, 0.0, 1e-4, 1e-3, 1e-2, 3e-2]), n_range=(60, 1200),
                                 tilt=True, drift=True, quant=True, min_baseline_frac=0.12))
     curve["hnoise"] = draw(st.sampled_from([0.0, 0.0, 0.3, 1.0, 2.0, 4.0]))
+    curve["time_mode"] = draw(st.sampled_from(["uniform", "uniform", "fast_retract", "slow_retract", "dwell"]))
     curve = make_well_formed(curve, draw(st.sampled_from([0.0, 1.0, 1.0])) * draw(st.floats(0.0, 0.03)))
     step, opt = draw(st.sampled_from(COMBOS + EXTRA_WEIGHT))
     variant = draw(st.integers(0, NVARIANTS[step] - 1))
@@ -435,7 +457,7 @@ def check_case(case, ctx):
         ctx.extra["max_equal_height_runs_generated"] = max(ctx.extra.get("max_equal_height_runs_generated", 0),
                                                            facts["runs"])
         classes += [case["curve"]["model"], "noisy" if case["curve"]["noise"] else "noise_free"]
-        for key in ("tilt", "drift", "lag", "quant", "with_tip", "hnoise"):
+        for key in ("tilt", "drift", "lag", "quant", "with_tip", "hnoise", "time_mode"):
             if case["curve"].get(key):
                 classes.append(key)
 
